@@ -239,6 +239,16 @@ def quantiles(cases):
                 for q, x in zip(qs, xs):
                     if abs(x - spec["delay"]) > 1e-6 * max(1.0, abs(spec["delay"])) or x < 0:
                         o["fails"].append(("quantile_cdf", f"TrainableDist(delay={spec['delay']}).quantile({q}) = {x}", replay))
+            elif k == "normal" and spec["scale"] == 0.0:
+                _cnt(o, "quantile:normal_scale0")
+                for q, x in zip(qs, xs):
+                    if abs(x - spec["loc"]) > 1e-6 * max(1.0, abs(spec["loc"])):
+                        o["fails"].append(("quantile_cdf", f"Normal(loc={spec['loc']}, scale=0).quantile({q}) = {x}: every sample of this distribution is {spec['loc']}", replay))
+                xv = onp.asarray(d.quantile(jnp.array(qs, dtype=jnp.float32)))
+                if xv.shape != (len(qs),) or not onp.allclose(xv, xs, rtol=1e-6, atol=1e-9):
+                    o["fails"].append(("quantile_vector", f"quantile(array) = {xv.tolist()} vs scalar calls {xs}: {desc}", replay))
+                z = float(jax.scipy.special.ndtri(jnp.float32(qs[0])))
+                o["model"].append(("c15.normal", dict(z=z, scale=0.0, loc=spec["loc"], z999=z999, z001=z001), dict(q=xs[0]), dict(case=c, q=qs[0]), (1e-6, 1e-9)))
             elif k == "normal":
                 for q, x in zip(qs, xs):
                     tol = 2e-5 + 0.4 * (3e-7 * (abs(spec["loc"]) + 4 * spec["scale"] + abs(x)) / spec["scale"])  # float32 rounding of loc, z*scale and x, seen through the CDF slope
